@@ -70,3 +70,12 @@ pub(crate) open spec fn ordered_from(log: Seq<Ev>, from: int, lo: int) -> bool
 pub(crate) broadcast group group_log {
     lemma_grows_push, lemma_grows_add,
 }
+
+pub(crate) proof fn lemma_delivered_from(log: Seq<Ev>, f1: int, f2: int, off: int)
+    requires delivered(log, f2, off), 0 <= f1 <= f2,
+    ensures delivered(log, f1, off),
+{
+    reveal(delivered);
+    let k = choose|k: int| 0 <= f2 <= k < log.len() && (#[trigger] log[k] matches Ev::Matched { off: o, .. } && o == off);
+    assert(0 <= f1 <= k < log.len() && (log[k] matches Ev::Matched { off: o, .. } && o == off));
+}
